@@ -610,7 +610,7 @@ B("C17.trailing_blanks", ["C17", "C15"], CB, "bounded_trailing_blanks", "From<&s
   "trailing spaces / tabs, with LF or CRLF, change neither the cells nor the quoted texts of a row, also with an odd number of quotes",
   "all rows of <= 4 tokens over {a, \", -, space, wide CJK} x 4 trailing-blank variants x {LF, CRLF}")
 
-B("A3.spans_are_components", ["C10", "C04", "C03"], SPAN, "bounded_spans_are_components", "From<&CellBuffer> for Vec<Span> (Span::new / merge_recursive / can_merge)",
+B("A3.spans_are_components", ["C10", "C13", "C09", "C03", "C04", "C05"], SPAN, "bounded_spans_are_components", "From<&CellBuffer> for Vec<Span> (Span::new / merge_recursive / can_merge)",
   "the spans are exactly the connected components of the occupied cells under 8-neighbour adjacency: a partition, nothing joined across a blank column or row",
   "exhaustive: all 4096 occupancy patterns of a 4 x 3 grid")
 
